@@ -622,6 +622,17 @@ func cmdRun(args []string) int {
 	total := workerOut{Kinds: map[string]int{}, Counters: map[string]int{}, Faults: map[string]int{}, KnownHits: map[string]int{}}
 	keys := map[uint64]bool{}
 	trouble := ""
+	// watchdog: a worker that does not finish is infrastructure trouble (exit 2), never a violation
+	limit := 20 * time.Minute
+	if *budget > 0 {
+		limit += *budget
+	}
+	watchdog := time.AfterFunc(limit, func() {
+		for _, pr := range procs {
+			pr.cmd.Process.Kill()
+		}
+	})
+	defer watchdog.Stop()
 	for k, pr := range procs {
 		werr := pr.cmd.Wait()
 		if ee, ok := werr.(*exec.ExitError); ok && ee.ExitCode() == 66 {
